@@ -307,3 +307,37 @@ Proof.
   { rewrite (Z.div_mod r1 PS), (Z.div_mod r2 PS) by lia. congruence. }
   unfold r1, r2 in E7. lia.
 Qed.
+
+Lemma upd_same c page row col v : upd c page row col v page row col = v.
+Proof. unfold upd. rewrite !Z.eqb_refl. reflexivity. Qed.
+
+Lemma upd_other c page row col v p r k : (p, r, k) <> (page, row, col) -> upd c page row col v p r k = c p r k.
+Proof.
+  intros H. unfold upd. destruct ((p =? page) && (r =? row) && (k =? col)) eqn:E; [|reflexivity].
+  exfalso. apply H. f_equal; [f_equal|]; lia.
+Qed.
+
+Theorem text_poke_peek m st a b : vm_kind m = 3 -> cells_nonneg st -> 0 <= b ->
+  text_in_range m a = true -> peek m (poke m st a b) a = b.
+Proof.
+  intros K Hc Hb Hin.
+  pose proof (text_poke m st a b K) as HP.
+  assert (Hc' : cells_nonneg (poke m st a b)).
+  { destruct (text_cell m a) as [[[page row] col] par]. rewrite HP, Hin.
+    intros p r c. destruct (par =? 0); cbn [vs_ch vs_at]; split; try apply Hc;
+      unfold upd; destruct (_ && _); try lia; apply Hc. }
+  rewrite (text_peek m (poke m st a b) a K Hc').
+  destruct (text_cell m a) as [[[page row] col] par]. rewrite HP, Hin.
+  destruct (par =? 0); cbn [vs_ch vs_at]; apply upd_same.
+Qed.
+
+(* text: cells other than the one of the address keep character and attribute *)
+Theorem text_poke_other m st a b p r c : vm_kind m = 3 ->
+  (let '(page, row, col, par) := text_cell m a in (p, r, c) <> (page, row, col)) ->
+  vs_ch (poke m st a b) p r c = vs_ch st p r c /\ vs_at (poke m st a b) p r c = vs_at st p r c.
+Proof.
+  intros K Hne. pose proof (text_poke m st a b K) as HP.
+  destruct (text_cell m a) as [[[page row] col] par]. rewrite HP.
+  destruct (text_in_range m a); [|split; reflexivity].
+  destruct (par =? 0); cbn [vs_ch vs_at]; split; try reflexivity; apply upd_other; exact Hne.
+Qed.
